@@ -114,7 +114,7 @@ func ruleDrainBeforeTerminal(c *Ctx, r *R) {
 											}
 											if iff, ok := tbody.Instrs[len(tbody.Instrs)-1].(*ssa.If); ok && okv != nil && iff.Cond == okv {
 												body := tbody.Succs[0]
-												if ret, ok := body.Instrs[len(body.Instrs)-1].(*ssa.Return); ok && len(ret.Results) == 2 && ret.Results[0] == xv && isNilConst(ret.Results[1]) {
+												if ret, ok := body.Instrs[len(body.Instrs)-1].(*ssa.Return); ok && len(ret.Results) == 2 && returnedValue(ret, 0) == xv && isNilConst(returnedValue(ret, 1)) {
 													okDrain = true
 												} else {
 													detail = "the drained item is not returned with a nil error"
@@ -133,7 +133,7 @@ func ruleDrainBeforeTerminal(c *Ctx, r *R) {
 										body := selectArmBody(s2, k)
 										rv := recvValue(s2, k)
 										if body != nil && rv != nil {
-											if ret, ok := body.Instrs[len(body.Instrs)-1].(*ssa.Return); ok && len(ret.Results) == 2 && ret.Results[0] == rv && isNilConst(ret.Results[1]) {
+											if ret, ok := body.Instrs[len(body.Instrs)-1].(*ssa.Return); ok && len(ret.Results) == 2 && returnedValue(ret, 0) == rv && isNilConst(returnedValue(ret, 1)) {
 												okDrain = true
 											} else {
 												detail = "the drained item is not returned with a nil error"
@@ -657,7 +657,7 @@ func rulePipePublish(c *Ctx, r *R) {
 				found := false
 				if ld.Referrers() != nil {
 					for _, ref := range *ld.Referrers() {
-						if ret, ok := ref.(*ssa.Return); ok && ret.Results[len(ret.Results)-1] == ssa.Value(ld) {
+						if ret, ok := ref.(*ssa.Return); ok && returnedValue(ret, len(ret.Results)-1) == ssa.Value(ld) {
 							found = true
 						}
 					}
@@ -671,7 +671,7 @@ func rulePipePublish(c *Ctx, r *R) {
 						if !ok || len(ret.Results) == 0 {
 							return
 						}
-						e := symOf(ret.Results[len(ret.Results)-1], provEnv{})
+						e := symOf(returnedValue(ret, len(ret.Results)-1), provEnv{})
 						nodes := []*sx{e}
 						if e.op == "phi" {
 							nodes = append(nodes, e.args...)
@@ -710,7 +710,7 @@ func rulePipePublish(c *Ctx, r *R) {
 				if !ok || len(ret.Results) == 0 {
 					continue
 				}
-				if strings.HasSuffix(path(ret.Results[len(ret.Results)-1]), "End") {
+				if strings.HasSuffix(path(returnedValue(ret, len(ret.Results)-1)), "End") {
 					under := false
 					for _, g := range guardsOf(d.in.Block()) {
 						if cf, ok := g.asCmp(); ok && cf.op == token.EQL && isNilConst(cf.y) && strings.HasSuffix(path(argOf(cf.x, d.calls)), ".senderErr") {
@@ -795,11 +795,11 @@ func rulePipeWhoMayClose(c *Ctx, r *R) {
 	k := 0
 	instrs(nx, func(b *ssa.BasicBlock, i int, in ssa.Instruction) {
 		ret, ok := in.(*ssa.Return)
-		if !ok || len(ret.Results) != 2 || !isNilConst(ret.Results[1]) {
+		if !ok || len(ret.Results) != 2 || !isNilConst(returnedValue(ret, 1)) {
 			return
 		}
 		k++
-		ex, ok := ret.Results[0].(*ssa.Extract)
+		ex, ok := returnedValue(ret, 0).(*ssa.Extract)
 		good := false
 		if ok {
 			if sel, ok := ex.Tuple.(*ssa.Select); ok {
@@ -936,13 +936,13 @@ func tryRecvHelper(cal *ssa.Function) (int, bool) {
 			good = false
 			return
 		}
-		k, isK := ret.Results[1].(*ssa.Const)
+		k, isK := returnedValue(ret, 1).(*ssa.Const)
 		if !isK || k.Value == nil {
 			good = false
 			return
 		}
 		if k.Value.String() == "true" {
-			if body == nil || !(b == body || body.Dominates(b)) || ret.Results[0] != rv {
+			if body == nil || !(b == body || body.Dominates(b)) || returnedValue(ret, 0) != rv {
 				good = false
 			}
 			sawTrue = true
